@@ -16,6 +16,7 @@ import (
 // expectedMiss lists witnesses the checks are known not to catch, with the reason (DESIGN §9).
 var expectedMiss = map[string]string{
 	"seeded/C06-a": "targets the steps form, whose range is not decided by design (needs a relational loop invariant)",
+	"seeded/C07-a": "replaces the segment search of the step interpolation by a binary search on the truncated input: which segment is selected is not decided by design (relational); inside the chosen segment the expression stays monotone",
 	"seeded/C12-b": "targets the nearest-neighbour choice inside util.FindClosest, which is not decided by design (functional correctness of the search)",
 }
 
